@@ -149,28 +149,33 @@ theorem exprOKT_succ (L : Laws2 D) {n : Nat} (iht : ExprOKT D n) (ihc : CallOK2 
   | bool b =>
     obtain ⟨rfl, _⟩ := compile_const_inv2 (.inl ⟨b, rfl⟩) hcomp
     subst hip
-    obtain ⟨s', r⟩ := run2_atom L (.inl rfl) hev hc hi hw
+    obtain ⟨s', r⟩ := run2_quote L hev hc hi hw
     exact wrap ⟨W, s', World.le_refl _, r⟩
   | char ch =>
     obtain ⟨rfl, _⟩ := compile_const_inv2 (.inr (.inl ⟨ch, rfl⟩)) hcomp
     subst hip
-    obtain ⟨s', r⟩ := run2_atom L (.inl rfl) hev hc hi hw
+    obtain ⟨s', r⟩ := run2_quote L hev hc hi hw
     exact wrap ⟨W, s', World.le_refl _, r⟩
   | num m =>
     obtain ⟨rfl, _⟩ := compile_const_inv2 (.inr (.inr (.inl ⟨m, rfl⟩))) hcomp
     subst hip
-    obtain ⟨s', r⟩ := run2_atom L (.inr ⟨m, rfl⟩) hev hc hi hw
+    obtain ⟨s', r⟩ := run2_quote L hev hc hi hw
     exact wrap ⟨W, s', World.le_refl _, r⟩
   | str t =>
     obtain ⟨rfl, _⟩ := compile_const_inv2 (.inr (.inr (.inr ⟨t, rfl⟩))) hcomp
     subst hip
-    obtain ⟨s', r⟩ := run2_atom L (.inl rfl) hev hc hi hw
+    obtain ⟨s', r⟩ := run2_quote L hev hc hi hw
     exact wrap ⟨W, s', World.le_refl _, r⟩
-  | quote d rest hd =>
+  | quote d rest =>
     obtain ⟨rfl, _⟩ := compile_quote_inv2 hcomp
     subst hip
     rw [evalStep_quote] at hev
-    obtain ⟨s', r⟩ := run2_atom L hd hev hc hi hw
+    obtain ⟨s', r⟩ := run2_quote L hev hc hi hw
+    exact wrap ⟨W, s', World.le_refl _, r⟩
+  | vecc e0 =>
+    obtain ⟨rfl, _⟩ := compile_vec_inv2 hcomp
+    subst hip
+    obtain ⟨s', r⟩ := run2_quote L hev hc hi hw
     exact wrap ⟨W, s', World.le_refl _, r⟩
   | sym x hsc => exact wrap (case2_sym L hsc hcx hcomp hev hc hip hi her hw)
   | setBang x e hsc _ hfe => exact wrap (case2_setBang L ih hsc hfe hcx hcomp hpre hev hc hip hi her hw)
